@@ -199,14 +199,15 @@ Proof.
   assert (Hcnt0 : 0 < cnt) by nia.
   unfold fetch_raw.
   rewrite (point_index_spec a (base_interval a) f) by (try assumption; try (unfold TMAX in *; lia); apply sub_aligned; assumption).
-  rewrite (point_index_spec a (base_interval a) u) by (try assumption; try (unfold TMAX in *; lia); apply sub_aligned; assumption).
   assert (Hq : Z.quot (ts_sub u f) (a_step a) = cnt).
   { rewrite ts_sub_nowrap by (unfold TMAX in *; lia). rewrite Hdiv. apply Z.quot_mul. lia. }
   rewrite Hq.
   assert (Hui : cls a (base_interval a) u = (cls a (base_interval a) f + cnt) mod a_n a).
   { replace u with (f + cnt * a_step a) by lia. apply cls_shift; assumption. }
   pose proof (cls_range a (base_interval a) f HN) as Hfr.
-  set (fi := cls a (base_interval a) f) in *. rewrite Hui.
+  set (fi := cls a (base_interval a) f) in *. clear Hui.
+  rewrite (Z.rem_mod_nonneg (fi + cnt) (a_n a)) by lia.
+  destruct (Z.ltb_spec cnt 0) as [Hneg|_]; [lia|].
   unfold slot.
   destruct (Z.ltb_spec fi ((fi + cnt) mod a_n a)) as [Hlt | Hge].
   - assert (Hnw : (fi + cnt) mod a_n a = fi + cnt).
